@@ -63,6 +63,10 @@ def attr_at(model, val, pt):
         return _arr(np.asarray(val, dtype=float))
 
 
+def _broadcast(vals, n):
+    return vals * n if len(vals) == 1 and n > 1 else vals
+
+
 def signature(model, salts=(1, 2, 3, 4, 5)):
     import casadi as ca
     from . import adapters
@@ -74,7 +78,9 @@ def signature(model, salts=(1, 2, 3, 4, 5)):
             row = {"name": v.symbol.name(), "shape": [v.symbol.size1(), v.symbol.size2()], "python_type": v.python_type.__name__,
                    "aliases": sorted(v.aliases)}
             if k != "der_states":
-                row["attrs"] = {a: [attr_at(model, getattr(v, a), pt) for pt in pts] for a in ATTRS}
+                # a scalar attribute of an array variable applies to every element: compare in broadcast form
+                n = v.symbol.size1() * v.symbol.size2()
+                row["attrs"] = {a: [_broadcast(attr_at(model, getattr(v, a), pt), n) for pt in pts] for a in ATTRS}
             rows.append(row)
         sig["lists"][k] = rows
     sig["string_parameters"] = [[p.name, p.value, p.start, bool(p.fixed)] for p in model.string_parameters]
